@@ -73,11 +73,13 @@ int main(int argc, char** argv) {
 				std::string b = guard([&] { if (n) fastNonDominatedSort(pts, r2); return ranks(r2); });
 				std::string c = guard([&] { if (n) dcNonDominatedSort(pts, r3); return ranks(r3); });
 				std::cout << "R nds=" << a << " fast=" << b << " dc=" << c << "\n";
-			} else if (query == "H") {
-				std::string disp = guard([&] { HypervolumeCalculator hv; return num(hv(pts, ref)); });
+			} else if (query == "H" || query == "G") {
+				// G = H without the calls that reach HypervolumeCalculatorMDHOY (stream with negative coordinates)
+				bool noHoy = query == "G";
+				std::string disp = (noHoy && d == 4) ? "-" : guard([&] { HypervolumeCalculator hv; return num(hv(pts, ref)); });
 				std::string a2 = d == 2 ? guard([&] { HypervolumeCalculator2D hv; return num(hv(pts, ref)); }) : "-";
 				std::string a3 = d == 3 ? guard([&] { HypervolumeCalculator3D hv; return num(hv(pts, ref)); }) : "-";
-				std::string hoy = d >= 3 ? guard([&] { HypervolumeCalculatorMDHOY hv; return num(hv(pts, ref)); }) : "-";
+				std::string hoy = (d >= 3 && !noHoy) ? guard([&] { HypervolumeCalculatorMDHOY hv; return num(hv(pts, ref)); }) : "-";
 				// WFG is exponential in the number of dominated points: explicit call only for small sets
 				std::string wfg = n <= 24 ? guard([&] { HypervolumeCalculatorMDWFG hv; return num(hv(pts, ref)); }) : "-";
 				std::string lim = (n >= 2 && n <= 24) ? guard([&] {
